@@ -317,7 +317,8 @@ def verdict(case, r, rc):
     if r is None:
         if rc == 0:
             return None   # not run (an earlier round of the same process crashed)
-        sig = {134: "SIGABRT", 139: "SIGSEGV", 135: "SIGBUS", 132: "SIGILL", 124: "timeout/hang", 137: "SIGKILL"}.get(rc, "rc=%s" % rc)
+        sig = {134: "SIGABRT", 139: "SIGSEGV", 135: "SIGBUS", 132: "SIGILL", 124: "timeout/hang", 137: "SIGKILL",
+               -6: "SIGABRT", -11: "SIGSEGV", -7: "SIGBUS", -4: "SIGILL", -9: "SIGKILL", -5: "SIGTRAP", 133: "SIGTRAP"}.get(rc, "rc=%s" % rc)
         return ("crash:%s" % sig, "the process running round %s (%d threads) died with %s" % (case["id"], nthr, sig))
     if "panic" in r:
         msg = re.sub(r"0x[0-9a-f]+|\d+", "_", str(r["panic"]))[:80]
